@@ -18,6 +18,21 @@ cnt = z3.Function("cnt", A, I, I, I, I, I)
 # ssum(arr, delta, lo, hi) = sum of arr[p]+delta for lo <= p < hi
 ssum = z3.Function("ssum", A, I, I, I, I)
 
+# codes_of(arr)[i] = code(arr[i]) : the A<C<G<T -> 0..3 map applied point-wise (foreign characters -> -1)
+codes_of = z3.Function("codes_of", A, A)
+
+
+def code_of(c):
+    return z3.If(c == 65, iv(0), z3.If(c == 67, iv(1), z3.If(c == 71, iv(2), z3.If(c == 84, iv(3), iv(-1)))))
+
+
+def codes_axioms():
+    """definition of codes_of (point-wise) and its consequence for stores (follows by extensionality)."""
+    a, i, v = z3.Const("ca_", A), z3.Int("ci_"), z3.Int("cv_")
+    return [z3.ForAll([a, i], codes_of(a)[i] == code_of(a[i]), patterns=[codes_of(a)[i]]),
+            z3.ForAll([a, i, v], codes_of(z3.Store(a, i, v)) == z3.Store(codes_of(a), i, code_of(v)), patterns=[codes_of(z3.Store(a, i, v))])]
+
+
 RECURSIVE = {}
 
 
